@@ -34,6 +34,13 @@ def jobj(pairs):
     return Enum('Value', 'Object', [HMap([[k if isinstance(k, Str) else Str(k), v] for k, v in pairs], True)])
 
 
+def jobj_seq(pairs):
+    """object whose members print in the given order (direct serialisation)"""
+    o = jobj(pairs)
+    o.vals[0].ordered = False
+    return o
+
+
 def is_value(v):
     return isinstance(v, Enum) and v.ty == 'Value'
 
@@ -124,8 +131,10 @@ def serde_attrs(attrs):
 
 # ---- Serialize -----------------------------------------------------------------------------------
 
-def to_value(interp, v):
-    """serde_json::to_value for any run-time value, following the derive of its type"""
+def to_value(interp, v, direct=False):
+    """serde_json::to_value for any run-time value, following the derive of its type.
+    direct=True is serde_json::to_string's view: no intermediate Map, so struct fields keep declaration
+    order and HashMap entries appear in (nondeterministic) iteration order"""
     v = deref(v)
     if is_value(v):
         return v
@@ -140,19 +149,23 @@ def to_value(interp, v):
     if isinstance(v, tuple):
         if len(v) == 0:
             return jnull()
-        return jarr([to_value(interp, x) for x in v])
+        return jarr([to_value(interp, x, direct) for x in v])
     if isinstance(v, Vec):
-        return jarr([to_value(interp, x) for x in v.v])
+        return jarr([to_value(interp, x, direct) for x in v.v])
     if isinstance(v, HSet):
         items = list(I.unordered(v.items)) if not v.ordered else B.sorted_values(interp, v.items)
-        return jarr([to_value(interp, x) for x in items])
+        return jarr([to_value(interp, x, direct) for x in items])
     if isinstance(v, HMap):
-        return jobj([(key_string(interp, k), to_value(interp, x)) for k, x in v.items])
+        if direct and not v.ordered:
+            return jobj_seq([(key_string(interp, k), to_value(interp, x, direct)) for k, x in I.unordered(v.items)])
+        if direct:
+            return jobj_seq([(key_string(interp, k), to_value(interp, x, direct)) for k, x in B.sorted_pairs(interp, v.items)])
+        return jobj([(key_string(interp, k), to_value(interp, x, direct)) for k, x in v.items])
     if isinstance(v, Enum):
         if v.ty == 'Option':
-            return jnull() if v.var == 'None' else to_value(interp, v.vals[0])
+            return jnull() if v.var == 'None' else to_value(interp, v.vals[0], direct)
         if v.ty == 'Result':
-            return jobj([(v.var, to_value(interp, v.vals[0]))])
+            return jobj([(v.var, to_value(interp, v.vals[0], direct))])
         en = interp.prog.enums.get(v.ty)
         if en is None:
             raise Inconclusive('Serialize for foreign enum %s' % v.ty)
@@ -167,8 +180,8 @@ def to_value(interp, v):
             return jstr(name)
         if kind == 'Fields::Unnamed':
             if len(v.vals) == 1:
-                return jobj([(name, to_value(interp, v.vals[0]))])
-            return jobj([(name, jarr([to_value(interp, x) for x in v.vals]))])
+                return jobj([(name, to_value(interp, v.vals[0], direct))])
+            return jobj([(name, jarr([to_value(interp, x, direct) for x in v.vals]))])
         pairs = []
         for f in vdef['fields']['named']:
             fn = f['ident']['0']['sym']
@@ -176,8 +189,8 @@ def to_value(interp, v):
             if 'skip' in fa or 'skip_serializing' in fa:
                 continue
             pairs.append((fa['rename'] if isinstance(fa.get('rename'), str) else rename_field(fn, vattrs.get('rename_all')),
-                          to_value(interp, v.fields[fn])))
-        return jobj([(name, jobj(pairs))])
+                          to_value(interp, v.fields[fn], direct)))
+        return jobj([(name, (jobj_seq if direct else jobj)(pairs))])
     if isinstance(v, Struct):
         if v.ty in ('PathBuf', 'OsString'):
             return jstr(deref(v.f['s']))
@@ -189,8 +202,8 @@ def to_value(interp, v):
             if st['fields']['_'] == 'Fields::Unit':
                 return jnull()
             if len(v.f) == 1:
-                return to_value(interp, v.f['0'])
-            return jarr([to_value(interp, v.f[str(i)]) for i in range(len(v.f))])
+                return to_value(interp, v.f['0'], direct)
+            return jarr([to_value(interp, v.f[str(i)], direct) for i in range(len(v.f))])
         pairs = []
         for f in st['fields']['named']:
             fn = f['ident']['0']['sym']
@@ -213,8 +226,8 @@ def to_value(interp, v):
             if 'flatten' in fa:
                 raise Inconclusive('serde(flatten)')
             name = fa['rename'] if isinstance(fa.get('rename'), str) else rename_field(fn, cattrs.get('rename_all'))
-            pairs.append((name, to_value(interp, x)))
-        return jobj(pairs)
+            pairs.append((name, to_value(interp, x, direct)))
+        return (jobj_seq if direct else jobj)(pairs)
     raise Inconclusive('Serialize for %r' % (v,))
 
 
@@ -244,6 +257,8 @@ def from_value(interp, j, t):
         t = interp.prog.aliases[h]
         h, args = type_head(t)
         seen += 1
+    if h == 'Self' and V.CALL_STACK and '::' in V.CALL_STACK[-1]:
+        h = V.CALL_STACK[-1].rsplit('::', 1)[0].rsplit('::', 1)[-1]
     if h in ('Value',):
         return j
     if h in ('String', 'str'):
@@ -488,6 +503,10 @@ def parse_text(interp, s):
         return Ok(V.deep_clone(d))
     py = s.py()
     if py is None:
+        # text that serde_json itself printed earlier in this path: parse(print(v)) == v
+        for cs, val in reversed(getattr(interp, 'json_printed', [])):
+            if len(cs) == len(s.cs) and all(a is b or (isinstance(a, int) and isinstance(b, int) and a == b) for a, b in zip(cs, s.cs)):
+                return Ok(V.deep_clone(val))
         raise Inconclusive('serde_json::from_str on symbolic text')
     import json as pj
     try:
@@ -612,7 +631,13 @@ def _json_paths(interp, segs, args, hint, generics):
         if name == 'to_value':
             return Ok(to_value(interp, args[0]))
         if name in ('to_string', 'to_string_pretty'):
-            return Ok(to_text(interp, to_value(interp, args[0]), name.endswith('pretty')))
+            jv = to_value(interp, args[0], direct=True)
+            txt = to_text(interp, jv, name.endswith('pretty'))
+            if txt.py() is None:
+                if not hasattr(interp, 'json_printed'):
+                    interp.json_printed = []
+                interp.json_printed.append((txt.cs, jv))
+            return Ok(txt)
         if name in ('from_value', 'from_str'):
             target = None
             if generics and generics[-1]:
